@@ -46,9 +46,11 @@ def check_consumer(ctx: Context, rep, rule: str):
     body_nodes = [n for n in ccfg.nodes if n.ast is not None and any(
         n.stmt is s or any(n.stmt is x for x in ast.walk(s))
         for s in loop.ast.body)]
+    from sa.norm import canon
     gets = [n for n in body_nodes if n.kind == "call" and isinstance(
-        n.ast.func, ast.Attribute) and n.ast.func.attr == "get" and
-            "_results" in norm(n.ast.func.value)]
+        n.ast.func, ast.Attribute) and n.ast.func.attr in (
+            "get", "get_nowait") and
+            "_results" in canon(imap, n.ast.func.value)]
     puts = [n for n in body_nodes if n.kind == "call" and isinstance(
         n.ast.func, ast.Attribute) and n.ast.func.attr == "put" and
             "_to_process" in norm(n.ast.func.value)]
@@ -62,8 +64,15 @@ def check_consumer(ctx: Context, rep, rule: str):
            message="one blocking dequeue per round")
     sent = [n for n in body_nodes if n.kind == "test" and "StopSentinel" in
             norm(n.ast) and "isinstance" in norm(n.ast)]
-    if len(sent) != 1 or not gets:
+    if not sent or not gets:
         raise AnalysisError("C13.consumer: sentinel test not found")
+    rep.ob(rule, len(sent) == 1, loc=imap.loc(sent[-1].ast),
+           where=imap.qualname, construct=f"{len(sent)} sentinel test(s) in "
+           "the consumer loop",
+           message="sentinels are counted at exactly one place (a second "
+           "place waits for sentinels that may already have been counted)")
+    if len(sent) != 1:
+        return puts, ccfg
     s = sent[0]
     true_succ = [m for m, lab in s.succ if lab == "true"]
     false_succ = [m for m, lab in s.succ if lab == "false"]
@@ -402,6 +411,10 @@ def run(ctx: Context, rep) -> None:
            loc=reset.loc(), where=reset.qualname,
            construct="put(StopSentinel()) x threads; self._to_process = None",
            message="stop sentinels go to the live queue before it is forgotten")
+    from sa.rules import shared
+    shared.check_unbounded_queues(ctx, rep, "C13.queues", LP)
+    shared.check_exit_propagates(ctx, rep, "C13.exit", modules=(LP, ), floor=1)
+
 
 
 _LP = "src/sedpack/io/itertools/lazy_pool.py"
